@@ -6,6 +6,7 @@ CONSTANTS
   Keys = {"a", "b"}
   Vals = {"x", "y"}
   Prunings <- PruningsSel
+  Strategies = {}
   PrunSel = {1, 6}
   MaxVer = 3
   MaxWrites = 1
@@ -16,6 +17,8 @@ CONSTANTS
   CrashPlan = FALSE
   CrashKind = "clean"
   TransientFirst = TRUE
+  MaxLoads = 0
+  LoadScope = "blockstart"
   ObsKind = {}
 VIEW view
 INVARIANTS
